@@ -92,6 +92,8 @@ type FuncContract struct {
 	// RepInv: representation invariant of the receiver's package-private state: assumed at root entry, asserted at
 	// call sites inside the declaring package, not demanded from callers in other packages (see calls_ops.go)
 	RepInv   []Clause
+	// Doms: static control-flow clauses "dominated [tag] Y#n by X#m" (see dom_ops.go)
+	Doms []DomClause
 	Ensures  []Clause
 	Loops    map[int]*LoopContract
 	Nullable map[string]bool
@@ -155,7 +157,7 @@ var clauseKeywords = map[string]bool{
 	"mode": true, "alloc_bound": true, "pure": true, "protected_by": true, "immutable": true,
 	"inv": true, "opaque": true, "havoc": true, "noinline": true, "bounded": true, "returns_fresh": true,
 	"sweep": true, "cover": true, "replay_hint": true, "never_writes": true, "frame_only": true, "reveal": true, "iface_calls_only": true, "direct_calls_only": true,
-	"rep_invariant": true,
+	"rep_invariant": true, "dominated": true,
 	"requires_held": true, "unshared_receiver": true, "sync": true, "owner_lock": true, "complete": true,
 }
 
@@ -364,6 +366,12 @@ func (cs *ContractSet) ParseContractFile(path string, pkgPath string) error {
 					return err
 				}
 				cur.Requires = append(cur.Requires, c)
+			case "dominated":
+				dc, err := parseDomClause(rest)
+				if err != nil {
+					return fmt.Errorf("%s:%d: %v", path, l.no, err)
+				}
+				cur.Doms = append(cur.Doms, dc)
 			case "rep_invariant":
 				c, err := mkClause(rest)
 				if err != nil {
@@ -447,6 +455,9 @@ func (cs *ContractSet) ParseContractFile(path string, pkgPath string) error {
 					}
 					ac.Clause = c
 				case "stop":
+				case "havoc":
+					// at callee#n havoc: at this call site only, do not inline the (first-party) callee: havoc its
+					// write set and take an arbitrary result (sound over-approximation; see calls_ops.go)
 				default:
 					return fmt.Errorf("%s:%d: unknown at-kind %q", path, l.no, w)
 				}
